@@ -292,7 +292,8 @@ class AbstractWalkModelDiGraph(ABC):
 
                 # If at least one x[(u,v,i)] is 1, then at least one y[(u,v,i)] is 1
                 # Big-M uses per-edge upper bounds for incoming edges to v
-                M_v = sum(self.edge_upper_bounds[(u, v)] for u in self.G.predecessors(v))
+                # (summed as floats: a sum of fixed-width numpy integers wraps around, np.uint8 128 + 128 = 0)
+                M_v = sum(float(self.edge_upper_bounds[(u, v)]) for u in self.G.predecessors(v))
                 self.solver.add_constraint(
                     incoming_flow_v <= M_v * incoming_selected_v,
                     name=f"22a_vertex_selected_v={v}_i={i}",
